@@ -253,8 +253,11 @@ class ControllerApplication:
             # answer the request with our name...
             self._send_address_claimed(self._device_address)
         else:
-            for subscriber in self._subscribers_request:
-                subscriber(src_address, dest_address, pgn)
+            # iterate over a copy: a callback may unsubscribe itself or others (which used to make the following
+            # callback miss this request); a callback removed meanwhile is not called any more
+            for subscriber in list(self._subscribers_request):
+                if subscriber in self._subscribers_request:
+                    subscriber(src_address, dest_address, pgn)
 
     def send_message(self, priority, parameter_group_number, data):
         if self.state != ControllerApplication.State.NORMAL:
